@@ -259,6 +259,36 @@ impl Zone {
     pub fn exists(&self, name: &Name) -> bool {
         self.status(name) != NodeStatus::Absent
     }
+    /// Shape classes a zone of U(2) cannot have (used as vacuity witnesses by the checks):
+    /// an empty non-terminal whose first descendant in canonical order is two or more labels
+    /// below it, an empty non-terminal directly above another one, a wildcard directly below the
+    /// lower of two such empty non-terminals.
+    pub fn deep_shapes(&self) -> Vec<&'static str> {
+        let mut out = vec![];
+        let mut ents: BTreeSet<Name> = BTreeSet::new();
+        for k in self.nodes.keys() {
+            let mut p = k.clone();
+            while p.strictly_below(&self.origin) {
+                p = p.parent();
+                if p.strictly_below(&self.origin) && self.status(&p) == NodeStatus::Ent {
+                    ents.insert(p.clone());
+                }
+            }
+        }
+        for e in &ents {
+            let first = self.nodes.keys().filter(|k| k.strictly_below(e)).min_by(|a, b| canonical_cmp(a, b));
+            if first.map(|f| f.num_labels() >= e.num_labels() + 2).unwrap_or(false) && !out.contains(&"shape:ent-first-descendant-2-below") {
+                out.push("shape:ent-first-descendant-2-below");
+            }
+            if ents.contains(&e.parent()) && !out.contains(&"shape:ent-above-ent") {
+                out.push("shape:ent-above-ent");
+            }
+            if ents.contains(&e.parent()) && self.status(&e.wildcard_child()) == NodeStatus::Data && !out.contains(&"shape:wildcard-below-ent-chain") {
+                out.push("shape:wildcard-below-ent-chain");
+            }
+        }
+        out
+    }
     /// A zone cut: a name other than the apex that owns an NS RRset (RFC 1034 4.2.1).
     pub fn is_cut(&self, name: &Name) -> bool {
         *name != self.origin && name.strictly_below(&self.origin) && self.has(name, T_NS)
